@@ -365,8 +365,21 @@ def sameprep(run, p, rid='C09-SAMEPREP'):
                   'whichever form the constraints came in')
     n = 0
 
+    def header(s):
+        """What a statement itself evaluates (for a compound statement only its header, not its blocks)."""
+        if isinstance(s, (ast.If, ast.While)):
+            return [s.test]
+        if isinstance(s, (ast.For, ast.AsyncFor)):
+            return [s.iter]
+        if isinstance(s, (ast.With, ast.AsyncWith)):
+            return [i.context_expr for i in s.items]
+        if isinstance(s, (ast.Try, ast.FunctionDef, ast.ClassDef, ast.AsyncFunctionDef)):
+            return []
+        return [s]
+
     def is_repair(s):
-        return any(isinstance(x, ast.Call) and isinstance(x.func, ast.Attribute) and x.func.attr == 'repair_field_types' for x in ast.walk(s))
+        return any(isinstance(x, ast.Call) and isinstance(x.func, ast.Attribute) and x.func.attr == 'repair_field_types'
+                   for h in header(s) for x in ast.walk(h))
 
     def helper_ok(g, depth=0):
         if depth > 3:
@@ -375,7 +388,7 @@ def sameprep(run, p, rid='C09-SAMEPREP'):
         return not [b for b in bad if 'not repair' not in (b[2] or '')]
 
     def calls_ok_helper(f, s, depth):
-        for x in ast.walk(s):
+        for x in (y for h in header(s) for y in ast.walk(h)):
             if isinstance(x, ast.Call) and isinstance(x.func, ast.Name):
                 try:
                     g = p.fn(f.mod.name + '.' + x.func.id)
